@@ -1,4 +1,5 @@
 import VelaVerif.Lemmas.NpuOpBuild
+import VelaVerif.Lemmas.NpuOpBuildLegal
 import VelaVerif.Lemmas.NpuOpBuildExample
 import VelaVerif.Handlers.NpuOpBuild
 /-!
@@ -394,6 +395,192 @@ theorem activation_clamp_override_preserved (fo : FloatOps) (op : OpD) (b : Bloc
     · rename_i hs
       rw [hs] at hsc; cases hsc
 
+/-! ## (a) the operations the builder accepts are legal for the register generator
+
+`OpCheck.fitsBlock` / `fitsDma` (`Spec/OpCheck.lean`) are C06's legality predicates: every field of the operation is
+representable in its register.  `WellFormed` (`Lemmas/NpuOpBuildLegal.lean`) lists the hypotheses explicitly: register-sized
+tile addresses / strides of whatever `create_feature_map` computes (C02: a tensor allocated inside its region, through
+`Props/C02Addr.lean`), zero points in the 16-bit register range, box extents 1…65536 (C10), kernel stride 1…3 and dilation
+1…2 (C16), padding below 65536, weight / scale ranges below the address limit (for weights read from the encoded tensor:
+`weight_ranges_match_layout` + the tensor inside its region), block configuration 1…65536; the values C06 takes from other
+mechanisms (`OracleFits`).  What the theorem adds: regions are 0…2, the extents are those of the boxes, the zero points are
+the tensors' or 0, the padding is the operator's / the stripe's or 0, no IFM2 / scalar appears, the ranges carry legal
+regions — so nothing the builder itself decides leaves the register ranges. -/
+
+/-- **Convolution, depthwise, pooling** (everything but elementwise; tile padding excluded by `WellFormed.noTile`) -/
+theorem build_legal (fo : FloatOps) (c : StripeD) (arch : ArchD) (o : Oracle) (r : Built) (maxAddr : Int)
+    (hne : c.op.type.isElementwise = false) (wf : WellFormed c arch maxAddr) (ho : OracleFits o)
+    (h : convert fo (.stripe c) arch o = .ok r) :
+    ∃ blk, r.op = .block blk ∧ OpCheck.fitsBlock blk maxAddr = [] := by
+  unfold convert at h
+  simp only at h
+  split at h
+  · cases h
+  · rename_i b hb
+    obtain ⟨kind, b0, hb0, e1, e2, e3, e4, e5, e6, e7, e8, e9, e10⟩ := buildBlock_nonEw fo c arch b hne hb
+    obtain ⟨hifm, hofm, hw, hk, hi2, hsc, hkind, hbc, p, hp, hpv⟩ := setCommon_fields fo c arch kind b0 hne wf.noTile hb0
+    obtain ⟨ifm0, hifm0, hifmeq⟩ := commonIfm_spec c arch b0.ifm hifm
+    unfold commonOfm at hofm
+    split at hofm
+    · cases hofm
+    · rename_i ofm0 hofm0
+      injection hofm with hofmeq
+      unfold toRecord at h
+      split at h
+      · cases h
+      · split at h
+        · cases h
+        · split at h
+          · cases h
+          · rename_i qs hqs
+            injection h with h
+            subst h
+            refine ⟨_, rfl, fitsBlock_nil _ _ ?_⟩
+            have hqs' : qs = none := by
+              unfold quantiseScalar at hqs
+              rw [e4, hsc] at hqs
+              simp only at hqs
+              injection hqs with hqs; exact hqs.symm
+            constructor
+            · -- ifm
+              show FmFits b.ifm.fm maxAddr
+              rw [e1, hifmeq]
+              exact fmFits_withQuant _ _ _ _ (createFm_region _ _ _ _ _ _ _ _ hifm0) (wf.ifmTiles _ hifm0)
+                (fun x hx => getIfmQuant_zp c c.ifm x hx wf.zpIn)
+            · show 1 ≤ b.ifm.fm.shape.depth ∧ b.ifm.fm.shape.depth < 65537
+              rw [e1, hifmeq]
+              have : (withQuant { ifm0 with shape := ⟨(blockOf c.ifmBox).height, (blockOf c.ifmBox).width,
+                  getIfmDepth c.op.type.blockType c.ifmBox c.ofmBox⟩ } (getIfmQuant c c.ifm)).fm.shape.depth =
+                  getIfmDepth c.op.type.blockType c.ifmBox c.ofmBox := by
+                cases getIfmQuant c c.ifm <;> rfl
+              rw [this]
+              unfold getIfmDepth
+              split
+              · exact wf.ifmDepth
+              · exact wf.ofmBox.2.2
+            · show FmFits b.ofm.fm maxAddr
+              rw [e2, ← hofmeq]
+              exact fmFits_withQuant _ _ _ _ (createFm_region _ _ _ _ _ _ _ _ hofm0) (wf.ofmTiles _ hofm0)
+                (fun x hx => getOfmQuant_zp c c.ofm x hx wf.zpOut)
+            · show ShapeFits b.ofm.fm.shape
+              rw [e2, ← hofmeq]
+              have : (withQuant { ofm0 with shape := blockOf c.ofmBox } (getOfmQuant c c.ofm)).fm.shape = blockOf c.ofmBox := by
+                cases getOfmQuant c c.ofm <;> rfl
+              rw [this]; exact wf.ofmBox
+            · intro f2 hf2
+              simp only [e3, hi2, Option.map_none] at hf2
+              cases hf2
+            · intro k hk' _
+              simp only [e5, hk, Option.some.injEq] at hk'
+              subst hk'; exact wf.kernel
+            · intro p' hp'
+              simp only [e6, hp, Option.some.injEq] at hp'
+              subst hp'
+              rcases hpv with rfl | ⟨p0, lim, hp0, rfl⟩
+              · unfold PaddingFits; simp
+              · exact padValues_fits c p0 lim (wf.pads p0 hp0) wf.stripePads
+            · intro rg hrg
+              simp only [e7] at hrg
+              have hreg := commonWeights_regions c arch _ _ hw rg (by simp [hrg])
+              have hr := wf.ranges _ _ hw rg (by simp [hrg])
+              exact ⟨hreg, hr.1, hr.2⟩
+            · intro rg hrg
+              simp only [e8] at hrg
+              have hreg := commonWeights_regions c arch _ _ hw rg (by simp [hrg])
+              have hr := wf.ranges _ _ hw rg (by simp [hrg])
+              exact ⟨hreg, hr.1, hr.2⟩
+            · show ShapeFits b.blockConfig
+              rw [e9, hbc]; exact wf.blockConfig
+            · exact ho
+
+/-- **DMA**: source and destination carry legal regions — a lookup table goes to SHRAM (`0x103`, the one region outside
+    0…7 the hardware accepts for a DMA), everything else to region 0…2 — and, for the transfer that buffers encoded weights,
+    source address, destination address and length are multiples of 16 (what Ethos-U55 demands of every DMA) whenever the two
+    tensors are 16-byte aligned; with addresses and length below the limit (`hfit`) the operation passes `OpCheck.fitsDma`. -/
+theorem build_legal_dma (fo : FloatOps) (d : DmaD) (arch : ArchD) (o : Oracle) (r : Built) (maxAddr : Int)
+    (h : convert fo (.dma d) arch o = .ok r)
+    (hfit : ∀ s t, createDmaOp d arch = .ok (s, t) →
+      (0 ≤ s.address ∧ s.address < maxAddr) ∧ (0 ≤ t.address ∧ t.address < maxAddr) ∧ (0 ≤ s.length ∧ s.length < maxAddr)) :
+    ∃ dma, r.op = .dma dma ∧ OpCheck.fitsDma dma maxAddr = [] ∧
+      (d.dst.purpose = .lut → dma.dst.region = 0x103) ∧
+      (d.src.purpose = .weights → (∀ rg ∈ d.src.ranges, rg.offset % 16 = 0) → d.src.address % 16 = 0 → d.dst.address % 16 = 0 →
+        dma.src.address % 16 = 0 ∧ dma.dst.address % 16 = 0 ∧ dma.src.length % 16 = 0 ∧ dma.dst.length = dma.src.length) := by
+  unfold convert at h
+  simp only at h
+  split at h
+  · cases h
+  · rename_i s t hdma
+    injection h with h
+    subst h
+    refine ⟨_, rfl, ?_, ?_, ?_⟩
+    · obtain ⟨hs, ht, hl⟩ := hfit s t hdma
+      -- regions
+      have hregs : (0 ≤ s.region ∧ s.region < 8) ∧ (t.region = 0x103 ∨ (0 ≤ t.region ∧ t.region < 8)) := by
+        unfold createDmaOp at hdma
+        split at hdma
+        · cases hdma
+        · rename_i sr hsr
+          split at hdma
+          · cases hdma
+          · rename_i dr hdr
+            have h1 := getRegion_range _ _ _ hsr
+            have h2 : dr = 0x103 ∨ (0 ≤ dr ∧ dr < 8) := by
+              unfold dmaDstRegion at hdr
+              split at hdr
+              · injection hdr with hdr; left; rw [← hdr]; rfl
+              · right; exact getRegion_range _ _ _ hdr
+            split at hdma
+            · split at hdma
+              · cases hdma
+              · split at hdma
+                · cases hdma
+                · injection hdma with hdma; injection hdma with e1 e2; subst e1; subst e2; exact ⟨h1, h2⟩
+            · split at hdma
+              · cases hdma
+              · injection hdma with hdma; injection hdma with e1 e2; subst e1; subst e2; exact ⟨h1, h2⟩
+      exact fitsDma_nil _ maxAddr rfl rfl hregs.1
+        (by rcases hregs.2 with h3 | h3
+            · left; rw [h3]; rfl
+            · right; exact h3) hs ht hl
+    · intro hl
+      unfold createDmaOp at hdma
+      split at hdma
+      · cases hdma
+      · split at hdma
+        · cases hdma
+        · rename_i dr hdr
+          have : dr = 0x103 := by
+            unfold dmaDstRegion at hdr
+            simp only [hl, beq_self_eq_true, ↓reduceIte] at hdr
+            injection hdr with hdr; rw [← hdr]; rfl
+          split at hdma
+          · split at hdma
+            · cases hdma
+            · split at hdma
+              · cases hdma
+              · injection hdma with hdma; injection hdma with e1 e2; subst e2; exact this
+          · split at hdma
+            · cases hdma
+            · injection hdma with hdma; injection hdma with e1 e2; subst e2; exact this
+    · intro hp hoff hsa hda
+      obtain ⟨sr, dr, depth, s', t', _, _, _, hd', rfl, rfl⟩ := createDmaOp_weights_spec d arch s t hp hdma
+      obtain ⟨hlen, rfl, r0, hr0, _, _, hs0⟩ := WeightLayout.createDmaOp_spec _ _ _ _ _ s' t' hd'
+      have hro := hoff r0 hr0
+      have hsum : WeightLayout.foundSum d.src.ranges depth (List.range arch.ncores) % 16 = 0 := by
+        unfold WeightLayout.foundSum
+        generalize (List.range arch.ncores).filterMap (fun k => WeightLayout.findRange d.src.ranges k depth) = l
+        induction l with
+        | nil => rfl
+        | cons x xs ih =>
+          simp only [List.map_cons, List.sum_cons]
+          have := WeightLayout.roundUp16_mod x.totalBytes
+          omega
+      simp only [toRange]
+      refine ⟨?_, ?_, ?_, trivial⟩
+      · rw [hs0]; omega
+      · omega
+      · rw [hlen]; omega
+
 /-! ## non-vacuity: the hypotheses are met by real commands of compiled networks
 
 `Lemmas/NpuOpBuildExample.lean` is generated (`tools/hl2npu_example.py`) from request lines captured while compiling generated
@@ -460,6 +647,41 @@ example : (buildBlock floatOps clamp_ew clamp_ewArch).toOption.map
 
 example : specBound floatOps (some ⟨4582575640091295744, 1⟩) (-31) ⟨4618441417868443648, 0⟩ = some 219 := by
   unfold specBound; decide +kernel
+
+/-- (a) the hypotheses of `build_legal` hold of a real convolution command (ethos-u55-32, address limit 2^32) -/
+example : WellFormed scale_tensor scale_tensorArch 4294967296 where
+  ifmTiles := fun fm h => of_decide_eq_true (of_toOption_all _ (fun x => decide (TilesFit x 4294967296)) (by decide +kernel) fm h)
+  ofmTiles := fun fm h => of_decide_eq_true (of_toOption_all _ (fun x => decide (TilesFit x 4294967296)) (by decide +kernel) fm h)
+  zpIn := by
+    intro q h
+    have : q.zeroPoint = -128 := by
+      rcases h with h | h
+      · simp only [scale_tensor] at h; injection h with h; rw [← h]
+      · simp only [scale_tensor] at h; cases h
+    rw [this]; unfold ZpFits; decide
+  zpOut := by
+    intro q h
+    have : q.zeroPoint = -36 := by
+      rcases h with h | h
+      · simp only [scale_tensor] at h; injection h with h; rw [← h]
+      · simp only [scale_tensor] at h; cases h
+    rw [this]; unfold ZpFits; decide
+  ifmDepth := by decide +kernel
+  ofmBox := by unfold ShapeFits; decide +kernel
+  kernel := by unfold KernelFits; decide +kernel
+  pads := by
+    intro p0 h
+    simp only [scale_tensor] at h
+    injection h with h
+    subst h
+    unfold PaddingFits; decide
+  stripePads := by decide +kernel
+  noTile := by decide +kernel
+  ranges := fun ws bs h r hr =>
+    of_decide_eq_true (List.all_eq_true.mp (of_toOption_all _
+      (fun p => (p.1 ++ p.2).all fun r => decide ((0 ≤ r.address ∧ r.address < 4294967296) ∧ (0 ≤ r.length ∧ r.length < 2 ^ 32)))
+      (by decide +kernel) (ws, bs) h) r hr)
+  blockConfig := by unfold ShapeFits; decide +kernel
 
 /-- DMA of a lookup table: destination in SHRAM (`BASE_PTR_INDEX_MEM2MEM`) -/
 example : (createDmaOp dma_lutDma dma_lutDmaArch).toOption = some (⟨0, 16, 256⟩, ⟨0x103, 22528, 256⟩) := by decide +kernel
